@@ -95,6 +95,17 @@ def gen_cases(rng, tier):
         for _ in range(rng.randint(1, 2)):
             pts += [f2b(rng.uniform(0, 12)) for _ in range(6)]
         cases.append(("c18", [7] + t + [f2b(rng.choice([1.5, 3.0, 6.0])), i % 2] + pts))
+    # fn 6 under axis-aligned mirrors and negative scales without skew (the bounds of the mapped path must be rebuilt from its
+    # points: mapping the two corners of the old bounds gives them in the wrong order)
+    for i in range(24 if tier == "quick" else 240):
+        sxv, syv = [(-1.0, 1.0), (1.0, -1.0), (-1.0, -1.0), (-2.0, 0.5), (0.5, -1.5), (-0.75, -0.75)][i % 6]
+        t = [f2b(sxv), 0, 0, f2b(syv), f2b(39.0 if sxv < 0 else 1.0), f2b(39.0 if syv < 0 else 1.0)]
+        n = rng.randint(3, 6)
+        lim = lambda sc: 36.0 / abs(sc)
+        pts = []
+        for _ in range(n):
+            pts += [f2b(round(rng.uniform(1, lim(sxv)), 2)), f2b(round(rng.uniform(1, lim(syv)), 2))]
+        cases.append(("c18", [6] + t + [i % 2] + pts))
     # fn 7 under shears and squeezes in which ONE row of the matrix is much longer than the other (y-shear, x-shear, thin
     # squeeze): the stroker's precision must follow the longer row; geometry placed so that the picture stays in 64 x 64
     for i in range(60 if tier == "quick" else 800):
